@@ -98,12 +98,11 @@ func genC09(ctx *Ctx) {
 
 func runC09(in sx.SX) (sx.SX, string) {
 	l := sx.AsList(in)
-	obs, _ := runTok("none")(in)
+	obs, fail := runTok("none")(in)
 	// regroup: fields between separator symbols, rows between end-of-line tokens
 	var rows [][]string
 	var row []string
 	field := ""
-	fail := ""
 	for _, t := range sx.AsList(obs) {
 		tt := sx.AsList(t)
 		switch int(sx.AsInt(tt[0])) {
